@@ -121,6 +121,43 @@ def mk_rule(cfg, list_form=None, retarget=None):
     return getattr(r, FILTER_METHOD[okind])(_arg(onames, list_form))
 
 
+def rule_steps(cfg, list_form=None):
+    """The fluent calls that build the rule, as (method name, args) pairs; the first one creates the object."""
+    steps = [("Rule", ()), ("modules_that", ())]
+    for side in ("subs", "objs"):
+        if side == "objs":
+            steps.append((cfg["verb"], ()))
+            if cfg.get("anything"):
+                steps.append((ANY_METHOD[cfg["dir"]], ()))
+                break
+            steps.append((IMPORT_METHOD[(cfg["dir"], cfg["exc"])], ()))
+        kind = cfg[side][0][0]
+        names = [n for _, n in cfg[side]]
+        steps.append(("have_name_matching", (names[0],)) if kind == "regex" else (FILTER_METHOD[kind], (_arg(names, list_form),)))
+    return steps
+
+
+def mk_rules_interleaved(cfgs, order, list_form=None):
+    """Several rules under construction at the same time: `order` lists rule indices, index i once per fluent call of
+    rule i (the first occurrence creates the object).  Returns the finished rule objects."""
+    from pytestarch import Rule
+
+    steps = [rule_steps(c, list_form) for c in cfgs]
+    cur, pos = [None] * len(cfgs), [0] * len(cfgs)
+    for i in order:
+        name, args = steps[i][pos[i]]
+        cur[i] = Rule() if name == "Rule" else getattr(cur[i], name)(*args)
+        pos[i] += 1
+    assert all(pos[i] == len(steps[i]) for i in range(len(cfgs)))
+    return cur
+
+
+def random_interleaving(rnd, cfgs, list_form=None):
+    order = [i for i, c in enumerate(cfgs) for _ in rule_steps(c, list_form)]
+    rnd.shuffle(order)
+    return order
+
+
 def _prefix(cfg, list_form=None):
     """subject + verb + import type, no object yet."""
     from pytestarch import Rule
@@ -219,4 +256,4 @@ def pick_unrelated(rnd, mods, n, avoid=(), kind="named", root="r"):
     return out
 
 
-__all__ = ["build", "mk_rule", "run", "lines", "random_tree", "random_imports", "candidate_imports", "pick_unrelated", "ancestors"]
+__all__ = ["build", "mk_rule", "mk_rules_interleaved", "random_interleaving", "rule_steps", "run", "lines", "random_tree", "random_imports", "candidate_imports", "pick_unrelated", "ancestors"]
